@@ -17,6 +17,8 @@ Rules
 * assigning a place: a linear leaf that is still full is overwritten ("overwrite"); assigning
   a borrowed parameter itself is forbidden ("assign-borrowed");
 * an expression statement whose value is linear loses it ("dropped");
+* a conditional expression `a if c else b` evaluates c, then exactly one arm (two outcomes);
+  its value is an unnamed value like a call result;
 * at every return: every linear leaf is empty except the leaves of borrowed parameters, and
   every non-copyable leaf of a borrowed parameter is full ("leak" / "not-handed-back").
 """
@@ -41,6 +43,8 @@ def ty_of(e):
         return SIGS[e[1]][1]
     if k == "true":
         return "bool"
+    if k == "ifx":
+        return ty_of(e[2])
     raise ValueError(e)
 
 
@@ -68,34 +72,55 @@ class Spec:
             st.discard((l, k))
         return st
 
-    def eval(self, st, e, mode="move"):
+    def note(self, v):
+        if len(self.violations) < 5:
+            self.violations.append((v.kind, v.what))
+        self.nviol = getattr(self, "nviol", 0) + 1
+
+    def eval(self, sts, e, mode="move"):
+        """evaluate e in every state of the list `sts`; returns the list of resulting states (a
+        conditional expression yields one per arm); a violating state is recorded and dropped"""
         k = e[0]
         if k in ("new", "lit", "true"):
-            return st
+            return list(sts)
         if k == "pl":
-            return self.read(st, e[1], e[2], mode)
+            out = []
+            for st in sts:
+                try:
+                    out.append(self.read(st, e[1], e[2], mode))
+                except Violation as v:
+                    self.note(v)
+            return out
         if k == "tup":
             for x in e[1]:
-                st = self.eval(st, x, "move")
-            return st
+                sts = self.eval(sts, x, "move")
+            return sts
+        if k == "ifx":      # e1 if c else e2: the condition first, then exactly one arm
+            sc = self.eval(sts, e[1], "move")
+            return self.eval(sc, e[2], "move") + self.eval(sc, e[3], "move")
         if k == "call":
             sig = SIGS[e[1]][0]
             back = []
             for (m, _), a in zip(sig, e[2]):
                 if a[0] == "pl":
-                    st = self.eval(st, a, m)
+                    sts = self.eval(sts, a, m)
                     if m == "bor":
                         back.append(a)
                 else:
-                    st = self.eval(st, a, "move")
-                    if m == "bor" and linear_ty(ty_of(a)):
-                        raise Violation("dropped", "linear value passed to a borrowing parameter")
-            st = set(st)
-            for a in back:
-                for l, kk in leaves_of(a[1], a[2]):
-                    if kk != "copy":
-                        st.add((l, kk))
-            return st
+                    sts = self.eval(sts, a, "move")
+                    if m == "bor" and linear_ty(ty_of(a)) and sts:
+                        # the value has no owner after the call: silently discarded
+                        self.note(Violation("dropped", "linear value passed to a borrowing parameter"))
+                        sts = []
+            out = []
+            for st in sts:
+                st = set(st)
+                for a in back:
+                    for l, kk in leaves_of(a[1], a[2]):
+                        if kk != "copy":
+                            st.add((l, kk))
+                out.append(st)
+            return out
         raise ValueError(e)
 
     def assign(self, st, name, ty):
@@ -132,16 +157,14 @@ class Spec:
 
     # ---- statements (sets of states) ----------------------------------------------------
     def guard(self, states, f):
+        """f: state -> list of states (may raise Violation)"""
         out = set()
         for st in states:
             try:
-                r = f(st)
-                if r is not None:
+                for r in f(st):
                     out.add(frozenset(r))
             except Violation as v:
-                if len(self.violations) < 5:
-                    self.violations.append((v.kind, v.what))
-                self.nviol = getattr(self, "nviol", 0) + 1
+                self.note(v)
         return out
 
     def stmts(self, ss, states):
@@ -153,32 +176,42 @@ class Spec:
             k = s[0]
             if k == "assign":
                 def f(st, s=s):
-                    st = self.eval(st, s[2], "move")
-                    for n, t in s[1]:
-                        st = self.assign(st, n, t)
-                    return st
+                    out = []
+                    for st2 in self.eval([st], s[2], "move"):
+                        try:
+                            for n, t in s[1]:
+                                st2 = self.assign(st2, n, t)
+                            out.append(st2)
+                        except Violation as v:
+                            self.note(v)
+                    return out
                 states = self.guard(states, f)
             elif k == "expr":
                 def f(st, s=s):
-                    st = self.eval(st, s[1], "move")
-                    if linear_ty(ty_of(s[1])):
+                    sts = self.eval([st], s[1], "move")
+                    if linear_ty(ty_of(s[1])) and sts:
                         raise Violation("dropped", "value of an expression statement")
-                    return st
+                    return sts
                 states = self.guard(states, f)
             elif k == "return":
                 def f(st, s=s):
+                    sts = [st]
                     if s[1] is not None:
                         if s[1][0] == "tup":
                             for x in s[1][1]:
-                                st = self.eval(st, x, "ret" if x[0] == "pl" else "move")
+                                sts = self.eval(sts, x, "ret" if x[0] == "pl" else "move")
                         else:
-                            st = self.eval(st, s[1], "ret")
-                    self.at_return(st)
-                    return None
+                            sts = self.eval(sts, s[1], "ret")
+                    for st2 in sts:
+                        try:
+                            self.at_return(st2)
+                        except Violation as v:
+                            self.note(v)
+                    return []
                 self.guard(states, f)
                 states = set()
             elif k == "if":
-                c = self.guard(states, lambda st, s=s: self.eval(st, s[1], "move"))
+                c = self.guard(states, lambda st, s=s: self.eval([st], s[1], "move"))
                 n1, b1, c1 = self.stmts(s[2], set(c))
                 n2, b2, c2 = self.stmts(s[3], set(c))
                 states = n1 | n2
@@ -192,7 +225,7 @@ class Spec:
                     if s[1] == ("true",):
                         c = new
                     else:
-                        c = self.guard(new, lambda st, s=s: self.eval(st, s[1], "move"))
+                        c = self.guard(new, lambda st, s=s: self.eval([st], s[1], "move"))
                         exits |= c
                     n1, b1, c1 = self.stmts(s[2], set(c))
                     exits |= b1
@@ -218,7 +251,7 @@ class Spec:
                     st.add((l, k))
         normal, brk, cont = self.stmts(self.fn["body"], {frozenset(st)})
         # falling off the end = implicit `return`
-        self.guard(normal, lambda s: self.at_return(s))
+        self.guard(normal, lambda s: self.at_return(s) or [])
         return {"ok": not self.violations, "violations": self.violations,
                 "complete_paths": self.complete_paths}
 
